@@ -184,6 +184,17 @@ def ts_rules(facts, rep):
     return ok
 
 
+def _closed_on_entry(p):
+    """the path took the 'writer is already closed' answer of current_compression(): spelled as a match on the Option (None = 0) or as
+    `.ok_or(..)?` / `.ok_or_else(..)?` (Break = 1)"""
+    for a, v in p["decisions"]:
+        if re.search(r"^discr\(GenericZipWriter::current_compression", a):
+            return v == 0
+        if re.search(r"^discr\(Try::branch\(Option::ok_or(_else)?\(GenericZipWriter::current_compression", a):
+            return v == 1
+    return False
+
+
 def failclosed_rules(facts, rep):
     rule = "C12-FAILCLOSED"
     ok = True
@@ -196,8 +207,7 @@ def failclosed_rules(facts, rep):
         if o[0] not in ("Err", "ErrProp"):
             continue
         n += 1
-        closed_before = decided(p, r"^discr\(GenericZipWriter::current_compression") == 0 or \
-            decided(p, r"^discr\(mem::replace\(self, Closed") == 0
+        closed_before = _closed_on_entry(p) or decided(p, r"^discr\(mem::replace\(self, Closed") == 0
         took = bool(called(p, r"mem::replace$"))
         good = took or closed_before
         if not good:
@@ -248,7 +258,7 @@ def misuse_rules(facts, rep):
     for p in ps:
         o = outcome(p)
         comp = decided(p, r"^discr\(compression\)$")
-        if decided(p, r"^discr\(GenericZipWriter::current_compression") == 0 and o[0] == "Err":
+        if _closed_on_entry(p) and o[0] in ("Err", "ErrProp"):
             rows["closed"] = True
         if decided(p, r"^PartialEq::eq\(") == 1 and o[0] == "Ok" and not called(p, r"mem::replace$"):
             rows["same-method-noop"] = True
